@@ -70,6 +70,12 @@ SPECIAL_KEYS = ["T", "F", "N", "D0000000000000000", "D8000000000000000", "D7ff00
                 "Z0000000000000000,8000000000000000", "Z7ff8000000000001,0000000000000000", "Z3ff0000000000000,7ff8000000000001",
                 "D43e0000000000000", "D43f0000000000000", "Dc3e0000000000000", "D433fffffffffffff", "D4340000000000001",
                 "E7fc00000", "E7f800000", "E00000001", "E3f800000",
+                # complex numbers that differ only in the sign of a zero component, with the other component non-zero / NaN / Inf
+                "Z0000000000000000,3ff0000000000000", "Z8000000000000000,3ff0000000000000", "Z0000000000000000,bff0000000000000",
+                "Z8000000000000000,bff0000000000000", "Z3ff0000000000000,0000000000000000", "Z3ff0000000000000,8000000000000000",
+                "Z0000000000000000,0000000000000000", "Z8000000000000000,0000000000000000", "Z8000000000000000,8000000000000000",
+                "Z0000000000000000,7ff0000000000000", "Z8000000000000000,7ff0000000000000", "Z4000000000000000,4008000000000000",
+                "Z0000000000000000,4340000000000000", "Z8000000000000000,4340000000000000", "Z43e0000000000000,3ff0000000000000",
                 "S-", "Y-", "B-", "S61", "Y61", "B61", "S62", "Y62", "B6161", "Sc3a9", "Yc3a9", "Bc3a9", "Yff", "Bff",
                 "C6d.6e", "C6d.6f", "C-.-", "c( C6d.6e )", "c( C6d.6e I1 )", "c( C6d.6e D3ff0000000000000 )", "c( C6d.6f I1 )",
                 "R( I1 )", "R( L1 )", "R( S61 )", "R( Y61 )", "R( t( I1 ) )", "t( )", "t( I1 )", "t( T )", "t( L1 )",
@@ -262,9 +268,38 @@ class C08:
             for n in range(1, 4):
                 for combo in itertools.product(opsn, repeat=n):
                     hs.append([(op, k, f"I{100 + i}") for i, (op, k) in enumerate(combo)])
+        # keys holding SEVERAL ByteStrings: one query equals up to 2^n stored keys that are pairwise different
+        # (Del must remove all of them, Set must leave exactly one)
+        pure2 = [f"t( {a} {b} )" for a in ("S61", "B61") for b in ("S61", "B61")]
+        query2 = ["t( Y61 Y61 )", "t( Y61 S61 )", "t( S61 Y61 )", "t( Y61 B61 )", "t( B61 Y61 )"]
+        all2 = [f"t( {a} {b} )" for a in ("S61", "B61", "Y61") for b in ("S61", "B61", "Y61")]
+        for r in range(1, 5):
+            for sub in itertools.permutations(pure2, r):
+                if r >= 3 and rng.random() > (1.0 if ctx.thorough else 0.35):
+                    continue
+                for op in ("D", "S"):
+                    for q in query2:
+                        h = [("S", k, f"I{100 + i}") for i, k in enumerate(sub)] + [(op, q, "I900")]
+                        h += [("G", k, "") for k in all2]
+                        hs.append(h)
+        pure3 = [f"t( {a} {b} {c} )" for a in ("S61", "B61") for b in ("S61", "B61") for c in ("S61", "B61")]
+        for _ in range(ctx.scale(40, 400)):
+            sub = rng.sample(pure3, rng.randint(2, 8))
+            q = "t( " + " ".join(rng.choice(["Y61", "Y61", "S61", "B61"]) for _ in range(3)) + " )"
+            h = [("S", k, f"I{100 + i}") for i, k in enumerate(sub)] + [(rng.choice("DS"), q, "I900")] + [("G", k, "") for k in pure3 + [q]]
+            hs.append(h)
+        # numbers at the edges of int64 / uint64 that are pairwise different although conversions overflow near them
+        edge = ["I-9223372036854775808", "D43e0000000000000", "Dc3e0000000000000", "U9223372036854775808", "L9223372036854775808",
+                "L-9223372036854775808", "I9223372036854775807", "U18446744073709551615", "D43f0000000000000"]
+        opse = [("S", k) for k in edge] + [("D", k) for k in edge[:5]] + [("G", k) for k in edge[:5]]
+        for n in (1, 2, 3):
+            for combo in itertools.product(opse, repeat=n):
+                if n == 3 and rng.random() > (0.5 if ctx.thorough else 0.06):
+                    continue
+                hs.append([(op, k, f"I{100 + i}") for i, (op, k) in enumerate(combo)] + [("G", k, "") for k in edge])
         for _ in range(ctx.scale(25, 300)):
             n = rng.choice([200, 600, 3000]) if ctx.thorough else rng.choice([100, 300, 800])
-            keys = [rand_key(rng) for _ in range(rng.choice([12, 40, 150, 500]))] + ALPHABET + NESTED
+            keys = [rand_key(rng) for _ in range(rng.choice([12, 40, 150, 500]))] + ALPHABET + NESTED + edge + all2
             keys = [k for k in keys if "X" not in k]
             h = []
             phase_grow = True
